@@ -77,6 +77,19 @@ Definition bump (a : str) (cnt : list (str * N)) : N * list (str * N) :=
   let n := (count_of a cnt + 1)%N in (n, set_item a n cnt).
 
 (** ---- the undecorated twin ---- *)
+Definition plain_call (al : str) (a : list pyval) (kw : list (str * pyval)) (r : outcome * list ev) : outcome * list ev :=
+  let '(o, l1) := r in (o, EBegin al a kw :: EBody al a kw :: l1 ++ [ECall al o]).
+Definition pbind_val (r : outcome * list ev) (k : pyval -> outcome * list ev) : outcome * list ev :=
+  match r with
+  | (OVal v, l) => let '(o2, l2) := k v in (o2, l ++ l2)
+  | _ => r
+  end.
+Definition pbind_exn (r : outcome * list ev) (h : outcome * list ev) : outcome * list ev :=
+  match r with
+  | (OExn _, l1) => let '(o2, l2) := h in (o2, l1 ++ l2)
+  | _ => r
+  end.
+
 Fixpoint plain_exec (c : code) (env : list pyval) : outcome * list ev :=
   match c with
   | Ret e => (OVal (eval env e), [])
@@ -84,26 +97,11 @@ Fixpoint plain_exec (c : code) (env : list pyval) : outcome * list ev :=
   | Interrupt => (OInt, [])
   | In cf body args kwargs k =>
       let a := map (eval env) args in let kw := eval_kw env kwargs in
-      let '(o, l1) := plain_exec body (body_env a kw) in
-      let l := EBegin (i_alias cf) a kw :: EBody (i_alias cf) a kw :: l1 ++ [ECall (i_alias cf) o] in
-      match o with
-      | OVal v => let '(o2, l2) := plain_exec k (env ++ [v]) in (o2, l ++ l2)
-      | _ => (o, l)
-      end
+      pbind_val (plain_call (i_alias cf) a kw (plain_exec body (body_env a kw))) (fun v => plain_exec k (env ++ [v]))
   | Out cf body args kwargs k =>
       let a := map (eval env) args in let kw := eval_kw env kwargs in
-      let '(o, l1) := plain_exec body (body_env a kw) in
-      let l := EBegin (o_alias cf) a kw :: EBody (o_alias cf) a kw :: l1 ++ [ECall (o_alias cf) o] in
-      match o with
-      | OVal v => let '(o2, l2) := plain_exec k (env ++ [v]) in (o2, l ++ l2)
-      | _ => (o, l)
-      end
-  | Try c1 h =>
-      let '(o, l1) := plain_exec c1 env in
-      match o with
-      | OExn _ => let '(o2, l2) := plain_exec h env in (o2, l1 ++ l2)
-      | _ => (o, l1)
-      end
+      pbind_val (plain_call (o_alias cf) a kw (plain_exec body (body_env a kw))) (fun v => plain_exec k (env ++ [v]))
+  | Try c1 h => pbind_exn (plain_exec c1 env) (plain_exec h env)
   | Discard k | Force k | Enable _ k => plain_exec k env
   | RecordData _ _ k => plain_exec k env
   | PlayData _ k => plain_exec k (env ++ [VNone])
@@ -133,102 +131,109 @@ Definition should_intercept_rec (s : rst) : bool := negb (icpt s) && in_rec s.  
 Definition prep_input (h : option ihandler) (v : pyval) (full : list pyval) (kw : list (str * pyval)) : option pyval :=
   match h with None => Some v | Some hh => ih_prep hh v full kw end.
 
+(** results of running a piece of code: outcome, recorder fields afterwards, event log *)
+Definition res := (outcome * rst * list ev)%type.
+
+Definition bind_val {S} (r : outcome * S * list ev) (k : pyval -> S -> outcome * S * list ev) : outcome * S * list ev :=
+  match r with
+  | (OVal v, s', l) => let '(o2, s2, l2) := k v s' in (o2, s2, l ++ l2)
+  | _ => r
+  end.
+Definition bind_exn {S} (r : outcome * S * list ev) (h : S -> outcome * S * list ev) : outcome * S * list ev :=
+  match r with
+  | (OExn _, s1, l1) => let '(o2, s2, l2) := h s1 in (o2, s2, l1 ++ l2)
+  | _ => r
+  end.
+Definition prepend {S} (la : list ev) (r : outcome * S * list ev) : outcome * S * list ev :=
+  let '(o, s, l) := r in (o, s, la ++ l).
+
+(** the input decorator while recording (:707-752 + :823-876); [body] runs the wrapped function *)
+Definition rec_in_call (cf : icfg) (a : list pyval) (kw : list (str * pyval)) (body : rst -> res) (s : rst) : res :=
+  let al := i_alias cf in
+  if should_intercept_rec s then
+    match input_keys cf a kw with
+    | None =>
+        (* key creation failed (:726-736): discard, then run the original under the flag with key None *)
+        let '(s0, la) := discard s in
+        let '(o, s1, l1) := body (set_icpt true s0) in
+        (o, set_icpt false s1, EBegin al a kw :: la ++ EBody al a kw :: l1 ++ [ECall al o])
+    | Some keys =>
+        let key := hd [] keys in
+        (* _execute_func_and_record_interception (:823-876) *)
+        let '(o, s1, l1) := body (set_icpt true s) in
+        let s2 := set_icpt false s1 in
+        let pre := EBegin al a kw :: EBody al a kw :: l1 in
+        match o with
+        | OExn e => (o, s2, pre ++ (if active s2 then [EWrite key (DExn e)] else []) ++ [ECall al o])
+        | OVal v =>
+            if active s2 then
+              (* the recording and its parameters are snapshotted before the handler runs (:850-853) *)
+              let '(s3, lh) := if i_prep_discards cf then discard s2 else (s2, []) in
+              match prep_input (i_handler cf) v (full_args (i_static cf) a) kw with
+              | None => let '(s4, la) := discard s3 in (o, s4, pre ++ lh ++ la ++ [ECall al o])
+              | Some rv =>
+                  (* written into the snapshotted recording; invisible if that one was just aborted *)
+                  (o, s3, pre ++ lh ++ (if active s3 then [EWrite key (DVal rv)] else []) ++ [ECall al o])
+              end
+            else (o, s2, pre ++ [ECall al o])
+        | OInt => (o, s2, pre ++ [ECall al o])
+        end
+    end
+  else
+    let '(o, s1, l1) := body s in
+    (o, s1, EBegin al a kw :: EBody al a kw :: l1 ++ [ECall al o]).
+
+Definition out_datum (cf : ocfg) (a : list pyval) (kw : list (str * pyval)) : option datum :=
+  match o_handler cf with None => Some (DOut a kw) | Some h => option_map DData (oh_prep h a kw) end.
+
+(** the output decorator while recording (:634-662 + :193-232 + :823-876) *)
+Definition rec_out_call (cf : ocfg) (a : list pyval) (kw : list (str * pyval)) (body : rst -> res) (s : rst) : res :=
+  let al := o_alias cf in
+  if should_intercept_rec s then
+    let '(n, cnt) := bump al (counter s) in
+    let s0 := set_counter cnt s in
+    (* _record_output (:193-232) *)
+    match out_datum cf a kw with
+    | None =>
+        (* prepare failed: discard, then the original is called plainly (:646-648) *)
+        let '(s1, la) := discard s0 in
+        let '(o, s2, l1) := body s1 in
+        (o, s2, EBegin al a kw :: ESent al a kw :: la ++ EBody al a kw :: l1 ++ [ECall al o])
+    | Some d =>
+        let '(o, s1, l1) := body (set_icpt true s0) in
+        let s2 := set_icpt false s1 in
+        let pre := EBegin al a kw :: ESent al a kw :: EWrite (okey_output al n) d :: EBody al a kw :: l1 in
+        match o with
+        | OExn e => (o, s2, pre ++ (if active s2 then [EWrite (okey_result al n) (DExn e)] else []) ++ [ECall al o])
+        | OVal v => (o, s2, pre ++ (if active s2 then [EWrite (okey_result al n) (DVal v)] else []) ++ [ECall al o])
+        | OInt => (o, s2, pre ++ [ECall al o])
+        end
+    end
+  else
+    let '(o, s1, l1) := body s in
+    (o, s1, EBegin al a kw :: EBody al a kw :: l1 ++ [ECall al o]).
+
 Section Rec.
   Variable P : prm.
 
-  Fixpoint rec_exec (c : code) (env : list pyval) (s : rst) : outcome * rst * list ev :=
+  Fixpoint rec_exec (c : code) (env : list pyval) (s : rst) : res :=
     match c with
     | Ret e => (OVal (eval env e), s, [])
     | Raise ty => (OExn (EUser ty), s, [])
     | Interrupt => (OInt, s, [])
     | In cf body args kwargs k =>
         let a := map (eval env) args in let kw := eval_kw env kwargs in
-        let al := i_alias cf in
-        let '(o, s', l) :=
-          if should_intercept_rec s then
-            match input_keys cf a kw with
-            | None =>
-                (* key creation failed (:726-736): discard, then run the original under the flag with key None *)
-                let '(s0, la) := discard s in
-                let '(o, s1, l1) := rec_exec body (body_env a kw) (set_icpt true s0) in
-                (o, set_icpt false s1, EBegin al a kw :: la ++ EBody al a kw :: l1 ++ [ECall al o])
-            | Some keys =>
-                let key := hd [] keys in
-                (* _execute_func_and_record_interception (:823-876) *)
-                let '(o, s1, l1) := rec_exec body (body_env a kw) (set_icpt true s) in
-                let s2 := set_icpt false s1 in
-                let pre := EBegin al a kw :: EBody al a kw :: l1 in
-                match o with
-                | OExn e => (o, s2, pre ++ (if active s2 then [EWrite key (DExn e)] else []) ++ [ECall al o])
-                | OVal v =>
-                    if active s2 then
-                      (* the recording and its parameters are snapshotted before the handler runs (:850-853) *)
-                      let '(s3, lh) := if i_prep_discards cf then discard s2 else (s2, []) in
-                      match prep_input (i_handler cf) v (full_args (i_static cf) a) kw with
-                      | None => let '(s4, la) := discard s3 in (o, s4, pre ++ lh ++ la ++ [ECall al o])
-                      | Some rv =>
-                          (* written into the snapshotted recording; invisible if that one was just aborted *)
-                          (o, s3, pre ++ lh ++ (if active s3 then [EWrite key (DVal rv)] else []) ++ [ECall al o])
-                      end
-                    else (o, s2, pre ++ [ECall al o])
-                | OInt => (o, s2, pre ++ [ECall al o])
-                end
-            end
-          else
-            let '(o, s1, l1) := rec_exec body (body_env a kw) s in
-            (o, s1, EBegin al a kw :: EBody al a kw :: l1 ++ [ECall al o])
-        in
-        match o with
-        | OVal v => let '(o2, s2, l2) := rec_exec k (env ++ [v]) s' in (o2, s2, l ++ l2)
-        | _ => (o, s', l)
-        end
+        bind_val (rec_in_call cf a kw (rec_exec body (body_env a kw)) s) (fun v s' => rec_exec k (env ++ [v]) s')
     | Out cf body args kwargs k =>
         let a := map (eval env) args in let kw := eval_kw env kwargs in
-        let al := o_alias cf in
-        let '(o, s', l) :=
-          if should_intercept_rec s then
-            let '(n, cnt) := bump al (counter s) in
-            let s0 := set_counter cnt s in
-            (* _record_output (:193-232) *)
-            match (match o_handler cf with None => Some (DOut a kw) | Some h => option_map DData (oh_prep h a kw) end) with
-            | None =>
-                (* prepare failed: discard, then the original is called plainly (:646-648) *)
-                let '(s1, la) := discard s0 in
-                let '(o, s2, l1) := rec_exec body (body_env a kw) s1 in
-                (o, s2, EBegin al a kw :: ESent al a kw :: la ++ EBody al a kw :: l1 ++ [ECall al o])
-            | Some d =>
-                let '(o, s1, l1) := rec_exec body (body_env a kw) (set_icpt true s0) in
-                let s2 := set_icpt false s1 in
-                let pre := EBegin al a kw :: ESent al a kw :: EWrite (okey_output al n) d :: EBody al a kw :: l1 in
-                match o with
-                | OExn e => (o, s2, pre ++ (if active s2 then [EWrite (okey_result al n) (DExn e)] else []) ++ [ECall al o])
-                | OVal v => (o, s2, pre ++ (if active s2 then [EWrite (okey_result al n) (DVal v)] else []) ++ [ECall al o])
-                | OInt => (o, s2, pre ++ [ECall al o])
-                end
-            end
-          else
-            let '(o, s1, l1) := rec_exec body (body_env a kw) s in
-            (o, s1, EBegin al a kw :: EBody al a kw :: l1 ++ [ECall al o])
-        in
-        match o with
-        | OVal v => let '(o2, s2, l2) := rec_exec k (env ++ [v]) s' in (o2, s2, l ++ l2)
-        | _ => (o, s', l)
-        end
-    | Try c1 h =>
-        let '(o, s1, l1) := rec_exec c1 env s in
-        match o with
-        | OExn _ => let '(o2, s2, l2) := rec_exec h env s1 in (o2, s2, l1 ++ l2)
-        | _ => (o, s1, l1)
-        end
-    | Discard k =>
-        let '(s1, la) := discard s in
-        let '(o, s2, l) := rec_exec k env s1 in (o, s2, la ++ l)
+        bind_val (rec_out_call cf a kw (rec_exec body (body_env a kw)) s) (fun v s' => rec_exec k (env ++ [v]) s')
+    | Try c1 h => bind_exn (rec_exec c1 env s) (rec_exec h env)
+    | Discard k => let '(s1, la) := discard s in prepend la (rec_exec k env s1)
     | Force k => rec_exec k env (do_force (p_ignore P) s)
     | Enable b k => rec_exec k env (set_enabled b s)
     | RecordData key e k =>
         (* record_data (:451-462): only in recording mode; not guarded by the interception flag *)
-        let '(o, s2, l) := rec_exec k env s in
-        (o, s2, (if in_rec s then [EWrite key (DData (eval env e))] else []) ++ l)
+        prepend (if in_rec s then [EWrite key (DData (eval env e))] else []) (rec_exec k env s)
     | PlayData _ k => rec_exec k (env ++ [VNone]) s           (* play_data outside playback returns None *)
     end.
 End Rec.
@@ -278,73 +283,66 @@ Definition missing_policy (cf : icfg) (a : list pyval) (kw : list (str * pyval))
        | VMCall f => Substitute (f a kw)
        end.
 
+Definition pres := (outcome * pst * list ev)%type.
+
 Section Play.
   Variable R : recording.
 
-  Fixpoint play_exec (c : code) (env : list pyval) (s : pst) : outcome * pst * list ev :=
+  (** the input decorator while replaying (:707-750 + :780-808); [body] runs the wrapped function *)
+  Definition play_in_call (cf : icfg) (a : list pyval) (kw : list (str * pyval)) (body : pst -> pres) (s : pst) : pres :=
+    let al := i_alias cf in
+    match input_keys cf a kw with
+    | None => (OExn EKeyCreation, s, [EBegin al a kw; ECall al (OExn EKeyCreation)])     (* :730-731 *)
+    | Some keys =>
+        match first_present keys R with
+        | Some key =>
+            let o := match rlookup key R with
+                     | Some (DExn e) => OExn e
+                     | Some (DVal v) => restore_input (i_handler cf) v (full_args (i_static cf) a) kw
+                     | _ => OExn EOutside
+                     end in
+            (o, s, [EBegin al a kw; ECall al o])
+        | None =>
+            match missing_policy cf a kw with
+            | RunOriginal =>
+                (* :743-745: the original runs outside any interception context *)
+                let '(o, s1, l1) := body s in
+                (o, s1, EBegin al a kw :: EBody al a kw :: l1 ++ [ECall al o])
+            | Substitute v => (OVal v, s, [EBegin al a kw; ECall al (OVal v)])
+            | RaiseMissing => (OExn EKeyMissing, s, [EBegin al a kw; ECall al (OExn EKeyMissing)])
+            end
+        end
+    end.
+
+  (** the output decorator while replaying (:634-659 + :224-226): the body never runs *)
+  Definition play_out_call (cf : ocfg) (a : list pyval) (kw : list (str * pyval)) (s : pst) : pres :=
+    let al := o_alias cf in
+    let '(n, cnt) := bump al (pcounter s) in
+    let s0 := mk_pst cnt (penabled s) in
+    let lo := match out_datum cf a kw with
+              | Some d => [EPbOut (okey_output al n) d]
+              | None => []                       (* a failing handler drops the entry silently (:210-220) *)
+              end in
+    let o := match rlookup (okey_result al n) R with
+             | Some (DExn e) => OExn e
+             | Some (DVal v) => OVal v
+             | Some _ => OExn EOutside
+             | None => if o_fail cf then OExn EKeyMissing else OVal (o_default cf)
+             end in
+    (o, s0, EBegin al a kw :: ESent al a kw :: lo ++ [ECall al o]).
+
+  Fixpoint play_exec (c : code) (env : list pyval) (s : pst) : pres :=
     match c with
     | Ret e => (OVal (eval env e), s, [])
     | Raise ty => (OExn (EUser ty), s, [])
     | Interrupt => (OInt, s, [])
     | In cf body args kwargs k =>
         let a := map (eval env) args in let kw := eval_kw env kwargs in
-        let al := i_alias cf in
-        let '(o, s', l) :=
-            match input_keys cf a kw with
-            | None => (OExn EKeyCreation, s, [EBegin al a kw; ECall al (OExn EKeyCreation)])     (* :730-731 *)
-            | Some keys =>
-                match first_present keys R with
-                | Some key =>
-                    let o := match rlookup key R with
-                             | Some (DExn e) => OExn e
-                             | Some (DVal v) => restore_input (i_handler cf) v (full_args (i_static cf) a) kw
-                             | _ => OExn EOutside
-                             end in
-                    (o, s, [EBegin al a kw; ECall al o])
-                | None =>
-                    match missing_policy cf a kw with
-                    | RunOriginal =>
-                        (* :743-745: the original runs outside any interception context *)
-                        let '(o, s1, l1) := play_exec body (body_env a kw) s in
-                        (o, s1, EBegin al a kw :: EBody al a kw :: l1 ++ [ECall al o])
-                    | Substitute v => (OVal v, s, [EBegin al a kw; ECall al (OVal v)])
-                    | RaiseMissing => (OExn EKeyMissing, s, [EBegin al a kw; ECall al (OExn EKeyMissing)])
-                    end
-                end
-            end
-        in
-        match o with
-        | OVal v => let '(o2, s2, l2) := play_exec k (env ++ [v]) s' in (o2, s2, l ++ l2)
-        | _ => (o, s', l)
-        end
+        bind_val (play_in_call cf a kw (play_exec body (body_env a kw)) s) (fun v s' => play_exec k (env ++ [v]) s')
     | Out cf body args kwargs k =>
         let a := map (eval env) args in let kw := eval_kw env kwargs in
-        let al := o_alias cf in
-        let '(o, s', l) :=
-            let '(n, cnt) := bump al (pcounter s) in
-            let s0 := mk_pst cnt (penabled s) in
-            let lo := match (match o_handler cf with None => Some (DOut a kw) | Some h => option_map DData (oh_prep h a kw) end) with
-                      | Some d => [EPbOut (okey_output al n) d]
-                      | None => []                       (* a failing handler drops the entry silently (:210-220) *)
-                      end in
-            let o := match rlookup (okey_result al n) R with
-                     | Some (DExn e) => OExn e
-                     | Some (DVal v) => OVal v
-                     | Some _ => OExn EOutside
-                     | None => if o_fail cf then OExn EKeyMissing else OVal (o_default cf)
-                     end in
-            (o, s0, EBegin al a kw :: ESent al a kw :: lo ++ [ECall al o])
-        in
-        match o with
-        | OVal v => let '(o2, s2, l2) := play_exec k (env ++ [v]) s' in (o2, s2, l ++ l2)
-        | _ => (o, s', l)
-        end
-    | Try c1 h =>
-        let '(o, s1, l1) := play_exec c1 env s in
-        match o with
-        | OExn _ => let '(o2, s2, l2) := play_exec h env s1 in (o2, s2, l1 ++ l2)
-        | _ => (o, s1, l1)
-        end
+        bind_val (play_out_call cf a kw s) (fun v s' => play_exec k (env ++ [v]) s')
+    | Try c1 h => bind_exn (play_exec c1 env s) (play_exec h env)
     | Discard k | Force k => play_exec k env s                  (* no active recording: no-ops *)
     | Enable b k => play_exec k env (mk_pst (pcounter s) b)
     | RecordData _ _ k => play_exec k env s
